@@ -18,7 +18,7 @@ from harness.props import compare_common as cc
 MANIFEST = dict(
     category="proof",
     technique="Lean 4 theorems over a hand-written model of the compare engine + differential correspondence with the implementation",
-    text='Lean theorems for every option record, flag record and both entry points: C10_xpath_match_spec / _zero / _pos / C10_str_vs_tuple (a pattern matches iff the parts after its last empty part equal the last parts of the path case-insensitively with * for one part; the result is the 1-based index of the first matching pattern; a str argument equals the one-element tuple); C10_exclude (the run with exclude_xpaths reports exactly the entries of the unrestricted run for which no tested prefix - one ending at a dictionary key, or the path of a list - matches, one line per remaining entry: both inclusions); C10_compare_only (entries located at dictionary entries are kept iff their path matches, entries located at list items are untouched). Transform (LeafTransform: every function is the identity on containers, maps scalars to scalars and None to a scalar or None): C10_transform_partial / C10_transform_verdict - for direct_compare, every other option and flag record, the run with transform on (a, b) and the run without it on the mapped trees (mapT) raise the same exception or return results of the same shape (line count, paths and pair kinds of the four lists), both directions; C10_transform_keyed_records / C10_transform_keyed_records_verdict (Proofs/CompareTransformKeyed.lean) - the same for the keyed/default entry point compare() WITHOUT a composite key on trees all of whose list items are records (every item of every list at every depth is a dictionary: then the n-th record meets the n-th record and the str()-keying of untransformed values plays no role); KEPT AND REFUTED: C10_transform_stmt (both entry points, all trees) - C10_transform_keyed_cex (known finding C10-a: in keyed mode non-record list items are paired by str() of the untransformed value); C10_transform_keyed_ck_cex - with a composite key the keyed statement fails even on lists of records (the key is built from the transformed field, which must be a str: TypeError for the identity on an int key field). The model (lean/N0Verif/Model/Compare.lean) follows n0dict.compare/direct_compare, n0list.compare/direct_compare, xpath_match, generate_composite_keys, update_extend and the flag machine branch by branch for the code WITH fix patches C07-a, C08-a, C09-a applied; it is compared with the implementation on generated pairs of trees (verdict, entry sets with rendered paths and values, number of prose lines, exception class) and the statement itself is executed on the implementation with Python-side oracles.',
+    text='Lean theorems for every option record, flag record and both entry points: C10_xpath_match_spec / _zero / _pos / C10_str_vs_tuple (a pattern matches iff the parts after its last empty part equal the last parts of the path case-insensitively with * for one part; the result is the 1-based index of the first matching pattern; a str argument equals the one-element tuple); C10_exclude (the run with exclude_xpaths reports exactly the entries of the unrestricted run for which no tested prefix - one ending at a dictionary key, or the path of a list - matches, one line per remaining entry: both inclusions); C10_compare_only (entries located at dictionary entries are kept iff their path matches, entries located at list items are untouched). Transform (LeafTransform: every function is the identity on containers, maps scalars to scalars and None to a scalar or None): C10_transform_partial / C10_transform_verdict - for direct_compare, every other option and flag record, the run with transform on (a, b) and the run without it on the mapped trees (mapT) raise the same exception or return results of the same shape (line count, paths and pair kinds of the four lists), both directions; C10_transform_keyed / C10_transform_keyed_verdict (Proofs/CompareTransformKeyed.lean) - the same for the keyed/default entry point compare() WITHOUT a composite key on trees every list of which, at every depth, holds records only or leaves only: the n-th record meets the n-th record, and (fix C10-a) a leaf is keyed by the JSON text of its TRANSFORMED value, the key it has in the mapped tree, so both runs pair the same positions ([i]<>[j] included) and two leaves meet iff their transformed values have the same type and value (C10_transform_keyed_example: {"a":["A"]} vs {"a":["a"]} under ("//a", lower) reports nothing); KEPT AND REFUTED: C10_transform_stmt (both entry points, all trees) - C10_transform_refuted from C10_transform_keyed_nested_cex (known finding C10-b, what is left of C10-a: a list that is an item of a list is keyed by the JSON text of its UNtransformed leaves; needs a pattern naming the index of the inner list such as //a[0]); C10_transform_keyed_ck_cex - with a composite key the keyed statement fails even on lists of records (the key is built from the transformed field, which must be a str: TypeError for the identity on an int key field). The model (lean/N0Verif/Model/Compare.lean) follows n0dict.compare/direct_compare, n0list.compare/direct_compare, xpath_match, generate_composite_keys, update_extend and the flag machine branch by branch for the code WITH fix patches C07-a, C08-a, C09-a, C07-b, C07-c, C09-b, C10-a applied; it is compared with the implementation on generated pairs of trees (verdict, entry sets with rendered paths and values, number of prose lines, exception class) and the statement itself is executed on the implementation with Python-side oracles.',
     note='str.lower() is modelled for ASCII (patterns/keys) and Latin-1 (transform lower); transform functions come from the family identity/lower/constant/numeric truncation (float lexemes of the form [-]d+.d+).',
     design_ref='5/C10',
 )
